@@ -7,6 +7,7 @@ The callees vanishing_poly_at_point_{circuit,native}, mul_many and inner_product
 import os
 import re
 
+from units.openin import loop_if_present
 from vf.unit import Unit, unmap_iter_collect_general, unrange_map_collect_general, unenumerate_filter_fold
 from units.gad import SPEC as GAD_SPEC
 
@@ -141,6 +142,9 @@ def build():
         c_ = match_brace(cp.body, mm.start(2))
         cp.body = cp.body[:mm.start()] + 'acc.mul(' + cp.body[mm.start(1):c_ + 1] + ')' + cp.body[c_ + 1:]
         cp.rewrites.append(('R11', '`acc * f(..)` on field values', 'acc.mul(f(..))'))
+    cp.rewrite_re('R11', r'\((pcs\.first_point\([^()]*\)) \* (\w+)\)', r'\1.mul(\2)', min_count=0)
+    from units.openin import unall
+    unall(cp)
     unenumerate_filter_fold(cp)
     unmap_iter_collect_general(cp)
     DS = 'quotient_chunks_domains@'
@@ -156,16 +160,29 @@ def build():
                 assert(b_t.has(vp_zeta_i) && b_t.val(vp_zeta_i) == zj(pcs, ds, i as int, zv));
                 assert(circuit.val(den) == den_prod(pcs, ds, i as int, n));
             }''')
+    from units.openin import loop_if_present as _lip
+    def loop_if_named(f, head, invariants=()):
+        # attach only when the loop AND every generated vector the invariants speak about are present (a restructured body shifts the generated names)
+        names = set(re.findall(r'\bv_m\d+_\b', ' '.join(t for _, t in invariants)))
+        from vf.unit import _find_all
+        from vf.extract import match_brace
+        ms = _find_all(head, f.body)
+        if not ms:
+            return
+        o_ = f.body.index('{', ms[0].end() - 1)
+        lbody = f.body[o_:match_brace(f.body, o_)]
+        if all((n + '.push(') in lbody for n in names):      # the loop fills exactly the vectors its contract speaks about
+            _lip(f, head, invariants=invariants)
     L_M0 = 'for m0_ in 0..quotient_chunks_domains.len()'
     L_I = 'for i in 0..quotient_chunks_domains.len()'
     L_J = 'for j in 0..quotient_chunks_domains.len()'
     L_M2 = 'for m2_ in 0..den_constants.len()'
     L_F = 'for i in 0..vp_zeta_values.len()'
-    cp.loop(L_M0, invariants=[('ctx', CTX), ('vanishing_values_at_zeta', 'v_m0_@.len() == m0_ && forall|k: int| 0 <= k < m0_ ==> circuit.has(#[trigger] v_m0_@[k]) && circuit.val(v_m0_@[k]) == zj(pcs, ds, k, zv)')])
-    cp.loop(L_I, invariants=[('ctx', CTX), ('denominators_so_far', 'v_m1_@.len() == i && forall|k: int| 0 <= k < i ==> #[trigger] v_m1_@[k] == den_prod(pcs, ds, k, n)')])
-    cp.loop(L_J, invariants=[('ctx', f'ds == {DS} && n == ds.len() && 0 <= i < n && domain_i == ds[i as int] && fp_i == pcs.sp_first_point(&ds[i as int])'), ('product_over_the_other_domains_so_far', 'acc == den_prod(pcs, ds, i as int, j as int)')])
-    cp.loop(L_M2, invariants=[('ctx', CTX + ' && b_t.has(total_vp_zeta_product) && circuit.extends_pure(&b_t)'), ('lifted', 'v_m2_@.len() == m2_ && forall|k: int| 0 <= k < m2_ ==> circuit.has(#[trigger] v_m2_@[k]) && circuit.val(v_m2_@[k]) == den_constants@[k]')])
-    cp.loop(L_F, invariants=[
+    loop_if_named(cp, L_M0, invariants=[('ctx', CTX), ('vanishing_values_at_zeta', 'v_m0_@.len() == m0_ && forall|k: int| 0 <= k < m0_ ==> circuit.has(#[trigger] v_m0_@[k]) && circuit.val(v_m0_@[k]) == zj(pcs, ds, k, zv)')])
+    loop_if_named(cp, L_I, invariants=[('ctx', CTX), ('denominators_so_far', 'v_m1_@.len() == i && forall|k: int| 0 <= k < i ==> #[trigger] v_m1_@[k] == den_prod(pcs, ds, k, n)')])
+    loop_if_named(cp, L_J, invariants=[('ctx', f'ds == {DS} && n == ds.len() && 0 <= i < n && domain_i == ds[i as int] && fp_i == pcs.sp_first_point(&ds[i as int])'), ('product_over_the_other_domains_so_far', 'acc == den_prod(pcs, ds, i as int, j as int)')])
+    loop_if_named(cp, L_M2, invariants=[('ctx', CTX + ' && b_t.has(total_vp_zeta_product) && circuit.extends_pure(&b_t)'), ('lifted', 'v_m2_@.len() == m2_ && forall|k: int| 0 <= k < m2_ ==> circuit.has(#[trigger] v_m2_@[k]) && circuit.val(v_m2_@[k]) == den_constants@[k]')])
+    loop_if_named(cp, L_F, invariants=[
         ('ctx', CTX + ''' && circuit.extends_pure(&b_t) && b_t.has(total_vp_zeta_product) && b_t.val(total_vp_zeta_product) == fprod(zs(pcs, ds, zv)) && vp_zeta_values@.len() == n && den_targets@.len() == n
             && (forall|k: int| 0 <= k < n ==> b_t.has(#[trigger] vp_zeta_values@[k]) && b_t.val(vp_zeta_values@[k]) == zj(pcs, ds, k, zv))
             && (forall|k: int| 0 <= k < n ==> circuit.has(#[trigger] den_targets@[k]) && circuit.val(den_targets@[k]) == den_prod(pcs, ds, k, n))'''),
@@ -196,6 +213,16 @@ def build():
         assert(Seq::new(quotient_chunks@.len(), |i: int| chunk_eval(b1.vals_of(quotient_chunks@[i]@))) =~= Seq::new(quotient_chunks_domains@.len(), |i: int| chunk_eval(old(circuit).vals_of(quotient_chunks@[i]@))));
     }''')
     cp.sig = cp.sig  # (emitted before its caller)
+    u.text('''verus! {
+impl<F: Field> CircuitBuilder<F> {
+    /// verified in unit gad
+    #[verifier::external_body]
+    pub fn exp_power_of_2(&mut self, base: ExprId, power_log: usize) -> (r: ExprId)
+        requires old(self).has(base)
+        ensures final(self).extends_pure(old(self)), final(self).has(r), final(self).val(r) == fpow(old(self).val(base), pow2(power_log as nat))
+    { unimplemented!() }
+}
+}''')
     u.text('verus! {')
     u.emit(qe, vis='')
     u.emit(cp, vis='')
